@@ -174,6 +174,51 @@ fn check_marlin(c: &Case, ctx: &mut CaseCtx) -> Result<(), Failure> {
             ctx.check(ck.shifted_powers.is_none() && vk.degree_bounds_and_shift_powers.is_none(), sig(P, "marlin", "trim", "unexpected_shift_material"), || "shift material without bounds".into())?;
         }
     }
+    // prepared verifier key / prepared commitment: doubling chains of the plain elements
+    {
+        use ark_poly_commit::{PCPreparedCommitment, PCPreparedVerifierKey};
+        let bits = <Fr as PrimeField>::MODULUS_BIT_SIZE as usize;
+        let chain_ok = |start: G1A, chain: &[G1A]| -> bool {
+            if chain.len() != bits {
+                return false;
+            }
+            let mut cur = start.into_group();
+            // spot-check the whole chain with one random combination instead of 255 comparisons per element
+            for x in chain {
+                if x.into_group() != cur {
+                    return false;
+                }
+                cur = cur + cur;
+            }
+            true
+        };
+        if let Out::Ok(pvk) = guard_plain(|| ark_poly_commit::marlin_pc::PreparedVerifierKey::<E>::prepare(&vk)) {
+            ctx.check(chain_ok(vk.vk.g, &pvk.prepared_vk.prepared_g), sig(P, "marlin", "prepare", "prepared_g"), || "prepared_g is not the doubling chain of g over the scalar bits".into())?;
+            ctx.check(pvk.max_degree == max && pvk.supported_degree == supported, sig(P, "marlin", "prepare", "degree_report"), || "prepared key degree report".into())?;
+            match (&vk.degree_bounds_and_shift_powers, &pvk.prepared_degree_bounds_and_shift_powers) {
+                (Some(plain), Some(prep)) => {
+                    ctx.check(plain.len() == prep.len() && plain.iter().zip(prep).all(|((d, g), (pd, ch))| d == pd && chain_ok(*g, ch)), sig(P, "marlin", "prepare", "shift_powers"), || {
+                        "prepared shift powers are not the doubling chains of the plain shift powers, bound by bound".into()
+                    })?;
+                }
+                (None, None) => {}
+                _ => return ctx.fail(sig(P, "marlin", "prepare", "shift_powers"), "presence of shift powers differs between key and prepared key"),
+            }
+            let e1 = E::pairing(vk.vk.g, vk.vk.beta_h);
+            ctx.check(E::multi_pairing([vk.vk.g], [pvk.prepared_vk.prepared_beta_h.clone()]) == e1 && E::multi_pairing([vk.vk.g], [pvk.prepared_vk.prepared_h.clone()]) == E::pairing(vk.vk.g, vk.vk.h), sig(P, "marlin", "prepare", "prepared_g2"), || "prepared G2 elements do not pair like h, beta_h".into())?;
+            ctx.label("prepared_key_checked");
+        } else {
+            return ctx.fail(sig(P, "marlin", "prepare", "abort"), "PreparedVerifierKey::prepare aborted");
+        }
+        let some = LabeledPolynomial::new("p".into(), uni_poly(supported.min(3), c.sel ^ 9), None, None);
+        if let Out::Ok((cm, _)) = guard(|| MarlinPC::commit(&ck, [&some], None)) {
+            let kc = cm[0].commitment().comm;
+            if let Out::Ok(pc) = guard_plain(|| ark_poly_commit::kzg10::PreparedCommitment::<E>::prepare(&kc)) {
+                ctx.check(chain_ok(kc.0, &pc.0), sig(P, "kzg10", "prepare", "prepared_commitment"), || "prepared commitment is not the doubling chain of the commitment".into())?;
+            }
+            let _ = guard_plain(|| ark_poly_commit::marlin_pc::PreparedCommitment::<E>::prepare(cm[0].commitment()));
+        }
+    }
     // truthful degree report
     let ok = LabeledPolynomial::new("p".into(), uni_poly(supported, c.sel), None, None);
     let r = guard(|| MarlinPC::commit(&ck, [&ok], None));
@@ -621,7 +666,7 @@ pub fn spec() -> PropertySpec {
     units.push(PropUnit::new("C09:skzg:srs", 120, 600, 2, |_| case().boxed(), check_sk));
     PropertySpec {
         id: "C09",
-        rule: "Generated key requests (max degree from {1..64}, supported <= max, enforced bound lists unsorted/duplicated/empty/None, hiding bounds, 1-10 variables, setup seeds). KZG SRS (Marlin, Sonic, streaming): every G1 power and gamma power is beta times its predecessor and every negative G2 power satisfies e(G_i, beta^-i H) = e(G_0, H) (random-combination pairing checks with per-index localisation), counts are max+1 / max+2, generators are not the identity, prepared elements pair like the plain ones. trim: committer/verifier key elements are exactly the SRS prefix ..=supported, gamma prefix ..=hiding+1, shifted window from max - max(B), one shift element per sorted de-duplicated bound (G_{max-b} for Marlin, beta^-(max-b) H for Sonic, shifted gamma windows for Sonic); degree reports are truthful (degree = supported commits, supported+1 is refused); two keys trimmed from one SRS interoperate; supported > max, hiding > max+1 and bounds beyond max/supported are refused. IPA / Hyrax: published generators equal the harness's own hash-to-curve derivation from the protocol name, are valid, non-identity, pairwise distinct, independent of the setup RNG; trim returns a prefix; odd/None variable counts refused. Code-based: Ligero parameters are a deterministic function of their inputs, Brakedown matrices have the declared shapes and exactly d non-zero entries per row, encode returns a word of the declared length, trim returns the parameters unchanged. Multilinear PST: every hypercube table sums to the generator, G1 and G2 tables carry the same scalars, and each variable's slice ratio matches the published g_mask (so every entry is eq(t,x) for one trapdoor); trimmed keys are the trailing tables. PST13: C15's parameter oracle (one element per monomial of total degree <= D, monomial and gamma chains through pairings, trim keeps exactly the monomials up to the supported degree with truthful key fields, trim beyond max refused) on generated (num_vars, max_degree, setup seed), truthful degree reports, a polynomial with every monomial of total degree <= supported commits and one degree more is refused, and a proof made under the committer key of one trim verifies under the verifier key of another trim of the same parameters (and not for a false value). Non-trivial: supported < max with >= 2 distinct bounds, or an unsorted/duplicated bound list (other schemes: a key larger than the smallest).",
+        rule: "Generated key requests (max degree from {1..64}, supported <= max, enforced bound lists unsorted/duplicated/empty/None, hiding bounds, 1-10 variables, setup seeds). KZG SRS (Marlin, Sonic, streaming): every G1 power and gamma power is beta times its predecessor and every negative G2 power satisfies e(G_i, beta^-i H) = e(G_0, H) (random-combination pairing checks with per-index localisation), counts are max+1 / max+2, generators are not the identity, prepared elements pair like the plain ones. trim: committer/verifier key elements are exactly the SRS prefix ..=supported, gamma prefix ..=hiding+1, shifted window from max - max(B), one shift element per sorted de-duplicated bound (G_{max-b} for Marlin, beta^-(max-b) H for Sonic, shifted gamma windows for Sonic); degree reports are truthful (degree = supported commits, supported+1 is refused); Marlin's prepared verifier key and KZG10's prepared commitment are the doubling chains (one element per scalar bit) of the plain elements, bound by bound, and the prepared G2 elements pair like h and beta_h; two keys trimmed from one SRS interoperate; supported > max, hiding > max+1 and bounds beyond max/supported are refused. IPA / Hyrax: published generators equal the harness's own hash-to-curve derivation from the protocol name, are valid, non-identity, pairwise distinct, independent of the setup RNG; trim returns a prefix; odd/None variable counts refused. Code-based: Ligero parameters are a deterministic function of their inputs, Brakedown matrices have the declared shapes and exactly d non-zero entries per row, encode returns a word of the declared length, trim returns the parameters unchanged. Multilinear PST: every hypercube table sums to the generator, G1 and G2 tables carry the same scalars, and each variable's slice ratio matches the published g_mask (so every entry is eq(t,x) for one trapdoor); trimmed keys are the trailing tables. PST13: C15's parameter oracle (one element per monomial of total degree <= D, monomial and gamma chains through pairings, trim keeps exactly the monomials up to the supported degree with truthful key fields, trim beyond max refused) on generated (num_vars, max_degree, setup seed), truthful degree reports, a polynomial with every monomial of total degree <= supported commits and one degree more is refused, and a proof made under the committer key of one trim verifies under the verifier key of another trim of the same parameters (and not for a false value). Non-trivial: supported < max with >= 2 distinct bounds, or an unsorted/duplicated bound list (other schemes: a key larger than the smallest).",
         assumptions: vec![
             "pairing identities show every power belongs to one trapdoor, not that the trapdoor is random or discarded",
             "batched pairing checks use 128-bit random coefficients derived from the case seed",
